@@ -38,6 +38,13 @@ def check_view_sequence(sc, seq, label):
 
 def check_iteration(scfg):
     stats = {"levels": 0, "items": 0}
+    if len(level_head(scfg)) != 1:
+        # no unique head: "starting with the head" has no meaning (possible
+        # only for graphs edited by hand; closed CFGs always have one)
+        stats["skipped_no_unique_head"] = True
+        from .. import core
+        core.CTX.hit("C16.skipped_no_unique_head")
+        return stats
     # whole-hierarchy iteration
     want = [k for k, b, sc, par, d in all_items(scfg)]
     got_pairs = list(scfg)
@@ -60,6 +67,8 @@ def check_iteration(scfg):
     for reg, sc in levels(scfg):
         stats["levels"] += 1
         label = reg.name if reg is not None else "top"
+        if len(level_head(sc)) != 1:
+            continue
         view = sc.concealed_region_view
         seq = list(view)
         check_view_sequence(sc, seq, label)
